@@ -829,6 +829,7 @@ def replay(prop, path) -> int:
     return 0
 
 HOOK_COMMITS = [
+    "77aaa97 verif hook: build the OSC buffer of a constructed parser without a byte loop (edits the hook added in d0d3974 only)",
     "1b93b23 verif hook: declare cfg(kani) and cfg(rust_cli_anstyle_verif) to check-cfg",
     "d0d3974 verif hook: construct/observe parser and params state (cfg-guarded)",
     "568540d verif hook: observe StripStream's carried state (cfg-guarded)",
